@@ -187,6 +187,7 @@ func init() {
 				{"BWT+RANK+ZRLT", "ANS0", "text", 1024, 2*1024 + 700},
 				{"TEXT", "TPAQ", "text", 1024, 1024 + 100},
 				{"NONE", "NONE", "random", 1024, 1024 + 40},
+				{"LZ", "HUFFMAN", "text", 1024, 2*1024 + 11}, // last block <= 15 bytes: stored in copy mode
 			}
 			if c.Thorough() {
 				seeds = append(seeds, seed{"LZX", "FPAQ", "xml", 2048, 4*2048 + 100}, seed{"TEXT+UTF+BWT+SRT+ZRLT", "CM", "utf8-3", 2048, 2*2048 + 9}, seed{"RLT+LZP", "RANGE", "runs", 1024, 4*1024 + 100}, seed{"ROLZ", "ANS1", "dna", 1024, 3 * 1024})
